@@ -14,6 +14,7 @@ cd $wt
 demo=$(ls $src/demo*_test.go $src/demo*.go 2>/dev/null | head -1)
 place=$(head -1 "$demo" | sed -n 's|^// place in: *||p' | tr -d ' ')
 [ -z "$place" ] && place=.
+case "$place" in .*|module*|root*) place=. ;; esac
 echo "demo=$demo place=$place" >> $out
 git apply $src/patch.diff && echo "apply: ok" >> $out || { echo "apply: FAIL" >> $out; }
 go build ./... && echo "build: ok" >> $out || echo "build: FAIL" >> $out
